@@ -348,7 +348,7 @@ func (c *compiler) evalUpdateIndex(left, index, value interface{}) error {
 		rv.SetMapIndex(reflect.ValueOf(index), reflect.ValueOf(value))
 	case reflect.Array, reflect.Slice:
 		if i, ok := index.(int); ok {
-			if rv.Len()-1 < i {
+			if i < 0 || rv.Len()-1 < i {
 				err = fmt.Errorf("array index out of bounds, got index %d, while array size is %v", i, rv.Len())
 			} else {
 				elemType := reflect.TypeOf(left).Elem()
@@ -398,7 +398,7 @@ func (c *compiler) evalAccessIndex(left, index interface{}, node *ast.IndexExpre
 		}
 	case reflect.Array, reflect.Slice:
 		if i, ok := index.(int); ok {
-			if rv.Len()-1 < i {
+			if i < 0 || rv.Len()-1 < i {
 				err = fmt.Errorf("array index out of bounds, got index %d, while array size is %d", index, rv.Len())
 			} else {
 
